@@ -36,6 +36,9 @@ type knownCrash struct {
 	what   string
 	raw    string     // probe as raw bytes, or
 	cmds   [][]string // probe as commands (the last one is the trigger)
+	cmds2  [][]string // a second command probe of the same root cause
+	noAOF  bool       // probe needs a server started with --appendonly no
+	ro     bool       // probe also runs on a read-only server
 	match  func(args []string) bool
 	parser bool          // crash is in the protocol parser: excluded through the in-package pre-screen
 	wait   time.Duration // probe: how long the bystander waits (0 = default)
@@ -183,6 +186,33 @@ func init() {
 			},
 		},
 		knownCrash{
+			id: "crash-aofmd5-no-aof", noAOF: true,
+			what: "AOFMD5 0 0 on a server started with --appendonly no dereferenced the nil aof in checksum() and killed the process",
+			cmds: [][]string{{"AOFMD5", "0", "0"}},
+			match: func(a []string) bool {
+				return strings.EqualFold(effective(a)[0], "aofmd5")
+			},
+		},
+		knownCrash{
+			id:    "crash-area-type-geo",
+			what:  "WITHIN|INTERSECTS key GEO: \"geo\" is in withinOrIntersectsTypes but has no parser, the area stays nil and the search dereferences it; SETCHAN c WITHIN key FENCE GEO is accepted and the next SET on the key kills the process",
+			cmds:  [][]string{{"SET", "k1", "a", "POINT", "33", "-115"}, {"WITHIN", "k1", "GEO"}},
+			cmds2: [][]string{{"SETCHAN", "cgeo", "WITHIN", "k1", "FENCE", "GEO"}, {"SET", "k1", "b", "POINT", "33", "-115"}},
+			match: func(a []string) bool {
+				return lowerHas(a, "geo")
+			},
+		},
+		knownCrash{
+			id: "crash-script-cyclic-table", ro: true,
+			what:  "EVALRO \"local t={} t[1]=t return t\" 0: a returned table that contains itself overflowed the Go stack in ConvertToRESP/ConvertToJSON (fatal error: stack overflow, process exit)",
+			cmds:  [][]string{{"EVALRO", "local t={} t[1]=t return t", "0"}},
+			cmds2: [][]string{{"EVAL", "local a={} local b={x=a} a.y=b return {a,b}", "0"}},
+			match: func(a []string) bool {
+				a = effective(a)
+				return strings.HasPrefix(strings.ToLower(a[0]), "eval") && len(a) > 1 && cyclicScripts[a[1]]
+			},
+		},
+		knownCrash{
 			id:   "crash-eval-huge-numkeys",
 			what: "EVAL script 100000000000000: numkeys is passed unchecked to luaState.CreateTable (scripts.go:446) -> makeslice: len out of range (or out of memory for merely large values); the process exits",
 			cmds: [][]string{{"EVAL", "return 1", "100000000000000"}},
@@ -229,6 +259,8 @@ type guard struct {
 	inputs      int // since last start
 	restartTime time.Duration
 	last        fuzzInput
+	noAOF       bool // child runs with --appendonly no
+	readonly    bool // the server was switched to read-only: the bystander does not write
 }
 
 var (
@@ -246,12 +278,23 @@ func wrapServerBin() {
 	}
 	realServerBin = bin
 	dir := t38.WorkDir()
-	sh := filepath.Join(dir, "c16-server.sh")
-	script := "#!/bin/sh\nulimit -v 4000000\nulimit -c 0\nexec \"" + bin + "\" \"$@\"\n"
-	if err := os.WriteFile(sh, []byte(script), 0o755); err == nil {
-		os.Setenv("VERIF_SERVER_BIN", sh)
+	for name, extra := range map[string]string{"c16-server.sh": "", "c16-server-noaof.sh": " --appendonly no"} {
+		sh := filepath.Join(dir, name)
+		script := "#!/bin/sh\nulimit -v 4000000\nulimit -c 0\nexec \"" + bin + "\"" + extra + " \"$@\"\n"
+		if err := os.WriteFile(sh, []byte(script), 0o755); err == nil {
+			if extra == "" {
+				wrappedBin = sh
+			} else {
+				wrappedNoAOFBin = sh
+			}
+		}
+	}
+	if wrappedBin != "" {
+		os.Setenv("VERIF_SERVER_BIN", wrappedBin)
 	}
 }
+
+var wrappedBin, wrappedNoAOFBin string
 
 func stopProc() {
 	for _, g := range liveGuards {
@@ -266,8 +309,13 @@ func newGuard(t *testing.T, c *ev.Collector) *guard {
 		c.Inconclusive("VERIF_SERVER_BIN not set: the subprocess containment check did not run")
 		t.Skip("no server binary (run through bin/check)")
 	}
+	return newGuardOpt(t, c, false)
+}
+
+// newGuardOpt: noAOF starts the child with --appendonly no.
+func newGuardOpt(t *testing.T, c *ev.Collector, noAOF bool) *guard {
 	wrapServerBin()
-	g := &guard{c: c, crashes: map[string]*crashRec{}}
+	g := &guard{c: c, crashes: map[string]*crashRec{}, noAOF: noAOF}
 	if err := g.start(); err != nil {
 		t.Fatalf("harness: cannot start the subprocess server: %v", err)
 	}
@@ -278,7 +326,14 @@ func newGuard(t *testing.T, c *ev.Collector) *guard {
 func (g *guard) start() error {
 	var err error
 	for attempt := 0; attempt < 3; attempt++ {
+		// t38.Opts has no switch for the aof; the wrapper script adds the flag
+		if g.noAOF && wrappedNoAOFBin != "" {
+			os.Setenv("VERIF_SERVER_BIN", wrappedNoAOFBin)
+		}
 		g.p, err = t38.StartProc(t38.Opts{HTTP: true})
+		if wrappedBin != "" {
+			os.Setenv("VERIF_SERVER_BIN", wrappedBin)
+		}
 		if err == nil {
 			break
 		}
@@ -287,6 +342,7 @@ func (g *guard) start() error {
 		return err
 	}
 	g.inputs = 0
+	g.readonly = false
 	if g.ctl, err = g.p.Dial(); err != nil {
 		return err
 	}
@@ -373,7 +429,9 @@ func (g *guard) check() verdict {
 		}
 	}
 	step("PING", func(v t38.Value) bool { return v.Equal(t38.Simple("PONG")) }, "PING")
-	step("FSET canary", func(v t38.Value) bool { return v.Kind == ':' }, "FSET", canaryKey, "c", "speed", "7")
+	if !g.readonly {
+		step("FSET canary", func(v t38.Value) bool { return v.Kind == ':' }, "FSET", canaryKey, "c", "speed", "7")
+	}
 	step("GET canary", func(v t38.Value) bool { return v.Equal(g.want) }, "GET", canaryKey, "c", "WITHFIELDS")
 	if problem == "" && g.p.Alive() {
 		// a panicking process keeps serving other goroutines while it prints its
@@ -790,6 +848,7 @@ func probeInput(k knownCrash) fuzzInput {
 func TestC16_Probes(t *testing.T) {
 	c := ev.New("C16", "probes", "exploration")
 	t.Cleanup(c.Flush)
+	t.Cleanup(func() { drainExcluded(c) })
 	c.Rule("one deterministic input per confirmed or repaired process-killing class (negative RESP bulk length, overflowing native length, FSET XX RETURN on a missing id, WHERE with an empty token, WHEREIN with a huge count), each in RESP and JSON output mode where it is a command; oracle as in containment: process alive, bystander PING and canary unchanged. A probe that still kills the process is a KNOWN-FINDING when listed as known, a violation otherwise.")
 	g := newGuard(t, c)
 	defer g.stop()
@@ -798,17 +857,51 @@ func TestC16_Probes(t *testing.T) {
 	oldBudget := bystanderBudget
 	bystanderBudget = 3 * time.Second
 	defer func() { bystanderBudget = oldBudget }()
+	var gNoAOF *guard
+	defer func() {
+		if gNoAOF != nil {
+			gNoAOF.stop()
+		}
+	}()
+	std := g
 	for _, k := range knownCrashes {
+		if std.readonly && std.p.Alive() {
+			std.ctl.Do("READONLY", "no")
+			std.readonly = false
+		}
+		g = std
+		if k.noAOF {
+			if gNoAOF == nil {
+				gNoAOF = newGuardOpt(t, c, true)
+			}
+			g = gNoAOF
+		}
 		variants := []fuzzInput{probeInput(k)}
 		if k.raw == "" {
 			j := probeInput(k)
 			j.JSON = true
 			variants = append(variants, j)
 		}
+		if k.cmds2 != nil {
+			variants = append(variants, fuzzInput{Kind: "cmds", Cmds: k.cmds2}, fuzzInput{Kind: "cmds", Cmds: k.cmds2, JSON: true})
+		}
+		if k.ro {
+			variants = append(variants, fuzzInput{Kind: "cmds", Cmds: k.cmds, Muts: []string{"read-only server"}})
+		}
 		died := false
 		for _, in := range variants {
 			if died {
 				break // one sighting per id
+			}
+			if g.readonly && g.p.Alive() {
+				g.ctl.Do("READONLY", "no")
+				g.readonly = false
+			}
+			if len(in.Muts) == 1 && in.Muts[0] == "read-only server" {
+				if v, err := g.ctl.Do("READONLY", "yes"); err != nil || v.IsErr() {
+					t.Fatalf("harness: READONLY yes: %v %v", v, err)
+				}
+				g.readonly = true
 			}
 			bystanderBudget = 3 * time.Second
 			if k.wait > 0 {
@@ -989,6 +1082,7 @@ func prescreen(b []byte, cuts []int) (res parseResult, panicked bool) {
 func TestC16_ContainBytes(t *testing.T) {
 	c := ev.New("C16", "contain-bytes", "exploration")
 	t.Cleanup(c.Flush)
+	t.Cleanup(func() { drainExcluded(c) })
 	c.Rule("valid RESP/telnet/native/HTTP streams of 1-8 commands with 1-4 byte-level mutations (bit flip, interesting byte, truncation, range deletion/duplication, random insertion, corrupted *n/$n/Content-Length headers incl. negative, off-by-one, huge, overflowing and non-numeric values, protocol switches and malformed HTTP snippets inserted mid-stream, broken CRLF), token soup and random bytes, sent in 1-3 segments to a subprocess server, then half-closed; oracle: process alive, the bystander connection opened before the input answers PING and reads its canary object unchanged. Inputs are first parsed in-package; those that panic in a frame of a listed known finding are counted as excluded and not sent. Non-trivial: the input reached the dispatcher (at least one message parsed and one reply received) and is malformed (parse error or different messages than the unmutated stream); distinct by (mutations, error text, messages before the error, first command).")
 	g := newGuard(t, c)
 	t.Cleanup(func() { g.report(t); g.stop() })
@@ -1086,11 +1180,40 @@ var poolKeys = []string{"k1", "k2", "k3"}
 var poolIDs = []string{"a", "b", "c", "d", "missing"}
 var poolFields = []string{"f", "g", "h", "z"}
 
+// tableScripts: scripts whose return value is a table that is cyclic, shared,
+// deeply nested, or holds values without a RESP/JSON form.
+var tableScripts = []string{
+	"local t={} t[1]=t return t",
+	"local t={} t.a=t return t",
+	"local a={} local b={x=a} a.y=b return {a,b}",
+	"local a={} local b={a} a[1]=b return a",
+	"local t={} local c=t for i=1,200 do c[1]={} c=c[1] end return t",
+	"local t={} local c=t for i=1,2000 do c.n={} c=c.n end return t",
+	"local s={1} return {s,s,s,{s,s}}",
+	"local t={} for i=1,100000 do t[i]=i end return t",
+	"return {1,{2,{3,{4,{5}}}}}",
+	"return {print, tile38.call, function() end}",
+	"local t=setmetatable({}, {__index=function(t,k) return t end}) return t",
+	"local t={} t[t]=1 return t",
+	"return {[1]=1,[3]=3,x=1}",
+	"return _G",
+	"return ARGV",
+	"return {KEYS, ARGV, KEYS}",
+}
+
+var cyclicScripts = map[string]bool{
+	"local t={} t[1]=t return t":                  true,
+	"local t={} t.a=t return t":                   true,
+	"local a={} local b={x=a} a.y=b return {a,b}": true,
+	"local a={} local b={a} a[1]=b return a":      true,
+	"return _G":                                   true,
+}
+
 var optTokens = []string{"NX", "XX", "EX", "FIELD", "POINT", "BOUNDS", "HASH", "OBJECT", "STRING", "WITHFIELDS", "RETURN", "ERRON404",
 	"CURSOR", "LIMIT", "MATCH", "WHERE", "WHEREIN", "WHEREEVAL", "WHEREEVALSHA", "NOFIELDS", "SPARSE", "FENCE", "DETECT", "COMMANDS",
 	"DISTANCE", "NODWELL", "ASC", "DESC", "CLIP", "BUFFER", "COUNT", "IDS", "OBJECTS", "POINTS", "HASHES", "CIRCLE", "SECTOR", "TILE",
 	"QUADKEY", "GET", "ROAM", "INTERSECTS", "WITHIN", "NEARBY", "META", "RAW", "STR", "AND", "OR", "NOT", "(", ")", "inside,outside",
-	"enter,exit,cross", "set,del,drop", "CLIPBY", "MVT", "SCAN", "SEARCH"}
+	"enter,exit,cross", "set,del,drop", "CLIPBY", "MVT", "SCAN", "SEARCH", "GEO", "ROAM", "GET"}
 
 func nest(open, close string, n int) string {
 	return strings.Repeat(open, n) + strings.Repeat(close, n)
@@ -1117,6 +1240,31 @@ var hostileArgs = func() []string {
 	}
 	return a
 }()
+
+// areaTypes: the area-type tokens of the server's own tables (search.go
+// withinOrIntersectsTypes / nearbyTypes, plus roam).
+var areaTypes = []string{"GEO", "BOUNDS", "HASH", "TILE", "QUADKEY", "GET", "OBJECT", "CIRCLE", "POINT", "SECTOR", "MVT", "ROAM"}
+
+// areaRoulette: an area type followed by 0-6 operands that are missing, short or odd.
+func areaRoulette(rt *rapid.T) []string {
+	out := []string{rapid.SampledFrom(areaTypes).Draw(rt, "areatype")}
+	n := rapid.IntRange(0, 6).Draw(rt, "nopnd")
+	for i := 0; i < n; i++ {
+		switch rapid.IntRange(0, 5).Draw(rt, "opndclass") {
+		case 0, 1:
+			out = append(out, rapid.SampledFrom([]string{"33", "-115", "1000", "0", "5", "12", "90", "-90", "180.5", "1e3"}).Draw(rt, "opndnum"))
+		case 2:
+			out = append(out, rapid.SampledFrom(append(append([]string{}, poolKeys...), poolIDs...)).Draw(rt, "opndname"))
+		case 3:
+			out = append(out, rapid.SampledFrom(hostileNums).Draw(rt, "opndhnum"))
+		case 4:
+			out = append(out, rapid.SampledFrom([]string{"9my5", "0231", `{"type":"Point","coordinates":[-115,33]}`, `{"type":"Polygon","coordinates":[[[-116,32],[-114,32],[-114,34],[-116,32]]]}`, "*", ""}).Draw(rt, "opndobj"))
+		default:
+			out = append(out, rapid.SampledFrom(areaTypes).Draw(rt, "opndtype"))
+		}
+	}
+	return out
+}
 
 func area(rt *rapid.T) []string {
 	switch rapid.IntRange(0, 9).Draw(rt, "area") {
@@ -1213,7 +1361,19 @@ func template(rt *rapid.T, depth int) []string {
 		}
 		return o
 	}
-	switch rapid.IntRange(0, 44).Draw(rt, "tmpl") {
+	switch rapid.IntRange(0, 51).Draw(rt, "tmpl") {
+	case 45, 46:
+		return cat([]string{rapid.SampledFrom([]string{"WITHIN", "INTERSECTS", "NEARBY"}).Draw(rt, "rcmd"), k()}, searchOpts(rt), areaRoulette(rt))
+	case 47:
+		return cat([]string{"TEST"}, areaRoulette(rt), []string{rapid.SampledFrom([]string{"INTERSECTS", "WITHIN"}).Draw(rt, "rtwi")}, areaRoulette(rt))
+	case 48:
+		return cat([]string{rapid.SampledFrom([]string{"SETHOOK", "SETCHAN"}).Draw(rt, "rhk"), "hr"}, map[bool][]string{true: {"http://127.0.0.1:9/x"}, false: nil}[rapid.Bool().Draw(rt, "rep")],
+			[]string{rapid.SampledFrom([]string{"WITHIN", "INTERSECTS", "NEARBY"}).Draw(rt, "rhcmd"), k(), "FENCE"}, areaRoulette(rt))
+	case 44:
+		// a command name nobody has sent before (state kept per name must not pile up)
+		return []string{fmt.Sprintf("nm%d", rapid.IntRange(0, 1<<30).Draw(rt, "newname")), "x"}
+	case 49, 50:
+		return []string{rapid.SampledFrom([]string{"EVAL", "EVALRO", "EVALNA"}).Draw(rt, "cev"), rapid.SampledFrom(tableScripts).Draw(rt, "tscript"), "0"}
 	case 0, 1:
 		return cat([]string{"SET", k(), id(), "FIELD", f(), "1", "EX", "1000"}, gen.ObjectSpec(rt))
 	case 2:
@@ -1279,7 +1439,7 @@ func template(rt *rapid.T, depth int) []string {
 		return []string{rapid.SampledFrom([]string{"SERVER", "INFO", "ROLE", "HEALTHZ", "AOFMD5", "GC", "OUTPUT", "HELLO", "COMMAND", "ECHO", "PING", "AUTH", "REPLCONF", "MASSINSERT", "SLEEP", "CONFIG", "CLIENT"}).Draw(rt, "adm"),
 			rapid.SampledFrom([]string{"", "ext", "0", "3", "json", "resp", "GET", "LIST", "GETNAME", "SETNAME", "REWRITE", "DOCS", "listening-port", "requirepass", "*"}).Draw(rt, "admarg"), "0", "10"}
 	case 37:
-		return []string{"AOFMD5", "0", "10"}
+		return []string{"AOFMD5", rapid.SampledFrom([]string{"0", "0", "1", "10", "-1", "9223372036854775807"}).Draw(rt, "md5pos"), rapid.SampledFrom([]string{"0", "0", "1", "10", "-1"}).Draw(rt, "md5size")}
 	case 38:
 		return []string{rapid.SampledFrom([]string{"SUBSCRIBE", "PSUBSCRIBE", "PUBLISH"}).Draw(rt, "ps"), "ch*", "msg"}
 	case 39:
@@ -1377,11 +1537,19 @@ func hostileCmd(rt *rapid.T) ([]string, []string) {
 func TestC16_ContainArgs(t *testing.T) {
 	c := ev.New("C16", "contain-args", "exploration")
 	t.Cleanup(c.Flush)
+	t.Cleanup(func() { drainExcluded(c) })
 	c.Rule("1-4 well-framed commands per connection (RESP or JSON output) drawn from templates of the whole command table (SET/FSET with RETURN, GET, DEL, PDEL, RENAME, EXPIRE, TTL..., JSET/JGET/JDEL, KEYS, SCAN/SEARCH/NEARBY/WITHIN/INTERSECTS with CURSOR/LIMIT/MATCH/WHERE/WHEREIN/WHEREEVAL/SPARSE/CLIP/BUFFER/DETECT/COMMANDS/FENCE/MVT and every output and area kind, area expressions, TEST, SETHOOK/SETCHAN, EVAL*/SCRIPT, TIMEOUT, pub/sub, admin reads) and then damaged 0-3 times (replace/insert a hostile constant, option token, extreme number or pool name; delete; truncate; swap) against a small seeded dataset on a subprocess server; commands whose documented effect reaches other connections (FLUSHDB, FOLLOW, READONLY, CONFIG SET/REWRITE, CLIENT KILL, SHUTDOWN, AOFSHRINK, looping scripts) are not generated. Oracle: process alive, bystander PING + canary unchanged. Shapes matching the predicate of a listed known finding are counted as excluded. Non-trivial: a damaged command got a reply; distinct by (command, damage operations, reply class, output mode).")
-	g := newGuard(t, c)
-	t.Cleanup(func() { g.report(t); g.stop() })
+	gStd := newGuard(t, c)
+	gNoAOF := newGuardOpt(t, c, true)
+	t.Cleanup(func() { gStd.report(t); gStd.stop(); gNoAOF.report(t); gNoAOF.stop() })
 	ev.Rapid("contain-args", ev.Pick(4000, 35000))
 	rapid.Check(t, func(rt *rapid.T) {
+		// a fifth of the connections go to a server started with --appendonly no
+		g := gStd
+		if rapid.IntRange(0, 4).Draw(rt, "noaof") == 0 {
+			g = gNoAOF
+			c.Label("server:appendonly-no")
+		}
 		in := fuzzInput{Kind: "cmds", JSON: rapid.IntRange(0, 3).Draw(rt, "json") == 0}
 		n := rapid.IntRange(1, 4).Draw(rt, "ncmds")
 		var opsAll [][]string
@@ -1409,6 +1577,18 @@ func TestC16_ContainArgs(t *testing.T) {
 			opsAll = append(opsAll, ops)
 			if goesLive(a) {
 				break
+			}
+			// a hook or channel is evaluated by the next write on its key
+			if n0 := strings.ToLower(a[0]); n0 == "sethook" || n0 == "setchan" {
+				for j, x := range a {
+					switch strings.ToLower(x) {
+					case "nearby", "within", "intersects":
+						if j+1 < len(a) && a[j+1] != "" && !strings.Contains(a[j+1], canaryKey) {
+							in.Cmds = append(in.Cmds, []string{"SET", a[j+1], "hooked", "POINT", "33", "-115"})
+							opsAll = append(opsAll, nil)
+						}
+					}
+				}
 			}
 		}
 		if len(in.Cmds) == 0 {
